@@ -69,7 +69,8 @@ def run(tier, seed):
                     plan.append(("xf:" + xf, None))
                 vars_ = []
                 if len(ref) < 3000:
-                    vars_ += variants.ber_semantic_variants(rng, b.mod, t, v, enc, (8 if b.mod.name == "EQ" else 2) if quick else 6)
+                    vars_ += variants.ber_semantic_variants(rng, b.mod, t, v, enc, (8 if b.mod.name == "EQ" else 2) if quick else 6,
+                                                            time_kinds=("GeneralizedTime", "UTCTime"))
                     vars_ += [(f, x) for f, x in variants.ber_variants(rng, tree, 1) if "cstrtagged" not in f and "indefmix" not in f][:3]
                     t2 = der.Encoder(b.mod).tree(t, v)
                     if dirty_unused_bits(t2, rng):
@@ -106,6 +107,9 @@ def run(tier, seed):
                 chk.inconcl("entry decode failed (C03)")
                 continue
             base = {s: ev[1 + i] for i, s in enumerate(CANON)}
+            from .c05 import kinds_in
+            kk = kinds_in(b, t)
+            timekinds = ("G" if "GeneralizedTime" in kk else "") + ("U" if "UTCTime" in kk else "") or "-"
             i = 5
             for what, vb in plan:
                 if i + 7 >= len(ev) + 1:
@@ -128,7 +132,8 @@ def run(tier, seed):
                     fids = tb.hit(ids[s])
                     if outs[s].get("out") != base[s].get("out") or outs[s].get("rc") != base[s].get("rc"):
                         chk.violation({"symptom": "canonical-encoding-differs", "syntax": s, "representation": what.split(":")[0] + ":" + what.split(":")[1].split("+")[0],
-                                       "rep_full": what, "kind": rt.kind, "fids": fids, "wide": "-fwide-types" in b.options},
+                                       "rep_full": what, "kind": rt.kind, "fids": fids, "wide": "-fwide-types" in b.options,
+                                       "timekinds": timekinds if "time-form" in what else "-"},
                                       "%s %s: %s of an equivalent representation (%s) is %s, base structure gives %s; value %s" % (
                                           tname, model.type_text(t, 0)[:90].replace("\n", " "), s, what, (outs[s].get("out") or "rc=" + str(outs[s].get("rc")))[:70],
                                           (base[s].get("out") or "")[:70], gen.value_repr(v, 80)),
@@ -137,7 +142,8 @@ def run(tier, seed):
                                       disc={"ids": sorted(ids[s]), "type": model.type_text(t, 0), "syntax": s})
                 if c.get("rc") != "0":
                     chk.violation({"symptom": "compare-nonzero", "syntax": "-", "representation": what.split(":")[0] + ":" + what.split(":")[1].split("+")[0],
-                                   "rep_full": what, "kind": rt.kind, "fids": tb.hit(ids["DER"]), "wide": "-fwide-types" in b.options},
+                                   "rep_full": what, "kind": rt.kind, "fids": tb.hit(ids["DER"]), "wide": "-fwide-types" in b.options,
+                                   "timekinds": timekinds if "time-form" in what else "-"},
                                   "%s: compare_struct(base, %s representation) = %s; value %s" % (tname, what, c.get("rc"), gen.value_repr(v, 80)),
                                   dict(replay, representation=what, variant_hex=vb.hex() if vb else None),
                                   disc={"ids": sorted(ids["DER"]), "type": model.type_text(t, 0), "syntax": "DER"})
